@@ -341,3 +341,175 @@ pub fn soak(max_pow: u32) -> SoakOut {
     drop(f);
     SoakOut { traces: total, witnesses: nw, failures, wall_ms: t0.elapsed().as_millis() }
 }
+
+/// C15, history independence of cost: what a small group costs (bytes requested from the
+/// allocator, allocations, worklist pops, entries scanned) must not depend on how big the
+/// groups were that the same process traced and collected before.
+pub struct SmallCost {
+    pub bytes: usize,
+    pub allocs: usize,
+    pub pops: usize,
+    pub scanned: usize,
+    pub destroyed: usize,
+}
+
+fn small_cost(k: usize, seen: &'static [std::sync::atomic::AtomicU8], base: usize) -> SmallCost {
+    // a fully recorded k-ring with one outside handle; one trace that finds it reachable
+    // (a clone is dropped while the outside handle exists), then the collecting drop
+    let objs: Vec<Rc<Big>> = (0..k).map(|i| Rc::new(Big { id: base + i, seen, slots: RefCell::new(Vec::new()) })).collect();
+    for i in 0..k {
+        link(&objs[i], Rc::clone(&objs[(i + 1) % k]), false);
+    }
+    let mut it = objs.into_iter();
+    let keep = it.next().unwrap();
+    drop(it);
+    let d0 = DESTROYED.load(Relaxed);
+    verif::reset();
+    let (b0, a0) = (crate::alloc::alloc_bytes(), crate::alloc::alloc_count());
+    drop(Rc::clone(&keep));
+    drop(keep);
+    let c = verif::counters();
+    SmallCost { bytes: crate::alloc::alloc_bytes() - b0, allocs: crate::alloc::alloc_count() - a0, pops: c[1], scanned: c[3], destroyed: DESTROYED.load(Relaxed) - d0 }
+}
+
+pub fn after_big(shape: &str, n: usize, seed: u64) -> (Vec<SmallCost>, Vec<SmallCost>, ScaleOut) {
+    let seen: &'static [std::sync::atomic::AtomicU8] = Box::leak((0..256).map(|_| std::sync::atomic::AtomicU8::new(0)).collect::<Vec<_>>().into_boxed_slice());
+    let sizes = [2usize, 8, 40];
+    let mut base = 0;
+    let mut before = vec![];
+    for _rep in 0..2 {
+        for &k in &sizes {
+            before.push(small_cost(k, seen, base));
+            base += k;
+        }
+    }
+    let big = run(shape, n, if shape == "ring" { n } else { 0 }, 0, seed);
+    let mut after = vec![];
+    for &k in &sizes {
+        after.push(small_cost(k, seen, base));
+        base += k;
+    }
+    (before, after, big)
+}
+
+/// Very many handles to ONE object: a fully recorded ring a <-> b, 2^pow + 3 extra strong
+/// handles to `a` taken through the raw API, then handles to `a` and `b` are released.
+/// Counts must be exact and nothing may die while the extra handles exist.
+pub struct HugeOut {
+    pub pow: u32,
+    pub count_errors: usize,
+    pub destroyed_while_held: usize,
+    pub ms: u128,
+}
+
+pub fn huge_count(pow: u32) -> HugeOut {
+    let t0 = std::time::Instant::now();
+    let seen: &'static [std::sync::atomic::AtomicU8] = Box::leak((0..2).map(|_| std::sync::atomic::AtomicU8::new(0)).collect::<Vec<_>>().into_boxed_slice());
+    let a = Rc::new(Big { id: 0, seen, slots: RefCell::new(Vec::new()) });
+    let b = Rc::new(Big { id: 1, seen, slots: RefCell::new(Vec::new()) });
+    link(&a, Rc::clone(&b), false);
+    link(&b, Rc::clone(&a), false);
+    let (wa, wb) = (Rc::downgrade(&a), Rc::downgrade(&b));
+    let extra: usize = (1usize << pow) + 3;
+    let p = Rc::into_raw(Rc::clone(&a));
+    for _ in 1..extra {
+        unsafe { Rc::increment_strong_count(p) };
+    }
+    let mut count_errors = 0;
+    let mut check = |want_a: usize, want_b: usize| {
+        if wa.strong_count() != want_a || wb.strong_count() != want_b {
+            count_errors += 1;
+        }
+    };
+    check(2 + extra, 2);
+    drop(Rc::clone(&a)); // a trace that must find the ring reachable
+    check(2 + extra, 2);
+    drop(b); // b is now owned by a only
+    check(2 + extra, 1);
+    drop(a); // a: the handle in b plus the raw ones
+    check(1 + extra, 1);
+    unsafe { Rc::decrement_strong_count(p) };
+    check(extra, 1);
+    let destroyed_while_held = seen.iter().filter(|s| s.load(Relaxed) != 0).count() + usize::from(wa.upgrade().is_none()) + usize::from(wb.upgrade().is_none());
+    check(extra, 1);
+    // the remaining raw handles are leaked on purpose (releasing them would be 2^pow traces)
+    HugeOut { pow, count_errors, destroyed_while_held, ms: t0.elapsed().as_millis() }
+}
+
+/// Nested teardowns of big groups: group i is a fully recorded ring of sizes[i] objects;
+/// one of its members stores (unrecorded) the last outside handle of group i+1, so the
+/// collection of group i releases group i+1 from inside a destructor, and so on.
+/// Everything must be destroyed exactly once and every allocation returned.
+pub struct NestedOut {
+    pub n: usize,
+    pub destroyed: usize,
+    pub double: usize,
+    pub leaked_blocks: isize,
+}
+
+fn ring_of(k: usize, base: usize, seen: &'static [std::sync::atomic::AtomicU8]) -> Vec<Rc<Big>> {
+    let objs: Vec<Rc<Big>> = (0..k).map(|i| Rc::new(Big { id: base + i, seen, slots: RefCell::new(Vec::new()) })).collect();
+    for i in 0..k {
+        link(&objs[i], Rc::clone(&objs[(i + 1) % k]), false);
+    }
+    objs
+}
+
+pub fn nested(sizes: &[usize]) -> NestedOut {
+    let n: usize = sizes.iter().sum();
+    let seen: &'static [std::sync::atomic::AtomicU8] = Box::leak((0..n).map(|_| std::sync::atomic::AtomicU8::new(0)).collect::<Vec<_>>().into_boxed_slice());
+    DESTROYED.store(0, Relaxed);
+    DOUBLE.store(0, Relaxed);
+    let live0 = crate::alloc::live_blocks() as isize;
+    {
+        let mut next: Option<Rc<Big>> = None;
+        let mut base = n;
+        for &k in sizes.iter().rev() {
+            base -= k;
+            let objs = ring_of(k, base, seen);
+            if let Some(h) = next.take() {
+                objs[k / 2].slots.borrow_mut().push(h);
+            }
+            let mut it = objs.into_iter();
+            next = it.next();
+            drop(it);
+        }
+        drop(next);
+    }
+    NestedOut { n, destroyed: DESTROYED.load(Relaxed), double: DOUBLE.load(Relaxed), leaked_blocks: crate::alloc::live_blocks() as isize - live0 }
+}
+
+thread_local! {
+    static ARENA: RefCell<Vec<Rc<Big>>> = const { RefCell::new(Vec::new()) };
+    static LATE: RefCell<Vec<Rc<Big>>> = const { RefCell::new(Vec::new()) };
+}
+
+/// The last outside handle of a group lives in a thread-local of the program and is
+/// released by that thread-local's destructor when the thread exits - before or after
+/// thread-locals registered later (e.g. by a library on its first collection).
+pub fn tls_exit(early: bool) -> NestedOut {
+    let n = 4 + 3;
+    let seen: &'static [std::sync::atomic::AtomicU8] = Box::leak((0..n).map(|_| std::sync::atomic::AtomicU8::new(0)).collect::<Vec<_>>().into_boxed_slice());
+    DESTROYED.store(0, Relaxed);
+    DOUBLE.store(0, Relaxed);
+    let h = std::thread::spawn(move || {
+        crate::alloc::sut(|| {
+            if early {
+                // register the program's thread-local (and its destructor) before anything
+                // the library might register at its first collection
+                ARENA.with(|a| a.borrow_mut().reserve(1));
+            }
+            let warm = ring_of(3, 4, seen);
+            drop(warm); // the thread's first collection
+            let g = ring_of(4, 0, seen);
+            let keep = g.into_iter().next().unwrap();
+            if early {
+                ARENA.with(|a| a.borrow_mut().push(keep));
+            } else {
+                LATE.with(|a| a.borrow_mut().push(keep));
+            }
+        })
+    });
+    let _ = h.join();
+    NestedOut { n, destroyed: DESTROYED.load(Relaxed), double: DOUBLE.load(Relaxed), leaked_blocks: 0 }
+}
